@@ -5,6 +5,7 @@ mod db;
 mod emit;
 mod eval;
 mod rewrite;
+mod py;
 
 use std::collections::BTreeMap;
 
@@ -26,6 +27,16 @@ fn main() {
         serde_json::from_str(&std::fs::read_to_string(&args[2]).expect("read contracts")).expect("contracts json");
     let outdir = &args[3];
     std::fs::create_dir_all(outdir).unwrap();
+    if args.len() > 4 && args[4] == "Py" {
+        let only: Option<Vec<String>> = if args.len() > 5 { Some(args[5..].to_vec()) } else { None };
+        let res = py::emit_py(&file, &contracts, only.as_ref());
+        std::fs::write(format!("{outdir}/Py.exec.rs"), &res.exec).unwrap();
+        std::fs::write(format!("{outdir}/Py.mirror.rs"), "").unwrap();
+        std::fs::write(format!("{outdir}/Py.iface.rs"), "").unwrap();
+        std::fs::write(format!("{outdir}/Py.meta.json"), serde_json::to_string_pretty(&res.meta).unwrap()).unwrap();
+        println!("{{\"Py\":{}}}", res.meta["functions"].as_array().map(|a| a.len()).unwrap_or(0));
+        return;
+    }
     let db = db::Db::build(&file);
     let units: Vec<String> = if args.len() > 4 {
         args[4..].to_vec()
